@@ -699,7 +699,7 @@ theorem origs_set (pi : ℝ) (w : W ℝ) (i : Nat) (s : Slot ℝ) (x : ℝ) :
 everything `init_` builds (`matches_tpwf`) -/
 def TPWF : TP ℝ → Prop
   | .r t => t.scale = 1
-  | .i t => t.hyper = true ∧ t.scale ≠ 0 ∧ t.lo < t.hi
+  | .i t => t.hyper = true ∧ 0 < t.scale ∧ t.lo < t.hi
   | .p _ => True
 
 theorem matches_tpwf {tiny : ℝ} {sh : Shape ℝ} {tp : TP ℝ} (h : Matches tiny sh tp) (hw : sh.Wide tiny) :
